@@ -1,6 +1,6 @@
 """Registry entry of property C02 (see tools/registry.py)."""
 
-_PARTS = 8
+_PARTS = 11
 
 PROP = {
     "id": "C02",
@@ -56,8 +56,19 @@ PROP = {
          "timeout_quick": 600, "timeout_thorough": 3000}
         for k in range(1, _PARTS + 1)
     ],
-    "rule": ("46 template configurations in 8 executables (one source, -DC02_PART=k; -O0 keeps the ASan+UBSan compile inside the quick budget): "
+    "rule": ("65 template configurations in 11 executables (one source, -DC02_PART=k; -O0 keeps the ASan+UBSan compile inside the quick budget): "
              "TreeSet with trivially relocatable / nothrow-movable / copy-only items and TreeMap<int, V> with the same three value categories, "
+             "parts 9-11: a fourth item category 'copy-only, assignment by value, noexcept swap' (KS / VS: not nothrow relocatable but nothrow "
+             "swappable, static_asserted, so contiguous nodes shift by std::iter_swap and internal items are replaced through pvAssignAnyway's "
+             "swap variant) as set item, map value and map key; TreeMap with a movable key class (KM), copy-only key classes and pointer keys "
+             "(TreeTraits::IsLess(KeyArg1*, KeyArg2*)) using every spelling of insert (Insert / InsertVar / InsertCrt x Key&& / const Key& x "
+             "Value&& / const Value&) and hinted add (Add / AddVar / AddCrt incl. AddCrt(iter, PairCreator)) chosen by the element id, with the "
+             "check that the key argument is moved-from exactly when it was passed as rvalue and inserted and that every stored key object "
+             "is intact; TreeMap(std::initializer_list) for 1..6 pairs; TreeTraitsStd with a transparent stateful comparison object (state read "
+             "back through GetLessFunc after every operation). In every configuration whose traits accept it (all but TreeTraitsStd<std::less<Key>> "
+             "and pointer keys) each lookup is also made with an argument of another type (Probe: GetLowerBound / GetUpperBound / Find / "
+             "ContainsKey / GetKeyCount<KeyArg>, const and non-const overloads of TreeMap), compared with the reference and, on every other "
+             "`q` line, with the model. "
              "unique and multi, maxCapacity {1,2,3,4,5,8,32} x capacityStep {1,2,4,8,16, 0 = maxCapacity} x MemPoolParams block counts {1,2,3,8} "
              "(cached free blocks 0 and >0) x contiguous / indexed nodes x linear / binary search, TreeNode<> with its default arguments (model "
              "parameters from Momo.Extracted), TreeTraitsStd (non-empty traits: MergeTo always generic). Per configuration: four key "
@@ -73,9 +84,12 @@ PROP = {
              "elements unless the whole source precedes the destination). distinct_nontrivial counts distinct (configuration, operation, "
              "height before>after, node count before>after, empty leaf present, empty internal node present) among operations that changed "
              "the node structure or left an empty node."),
-    "runtime_only": ["memory safety of node / item storage for the three relocation categories and both layouts (ASan+UBSan, element payload "
+    "runtime_only": ["memory safety of node / item storage for the four relocation categories and both layouts (ASan+UBSan, element payload "
                      "ledger)"],
     "not_modelled": ["node layout (contiguous vs indexed) and item relocation category: no effect on the model, exercised by the harness",
+                     "which spelling of an operation is called (Key&& / const Key&, creator / variadic / value overloads, heterogeneous "
+                     "lookup argument, initializer-list constructor): the same model operation; whether the key argument is consumed is "
+                     "checked by the harness only",
                      "iterator version checks and CheckMode (C15)", "allocation failures / throwing comparisons (C04, C10)",
                      "stdish::set/map wrappers incl. their handling of invalid hints (C06); native Add(iter, item) requires a valid hint"],
 }
